@@ -99,6 +99,10 @@ def gen_string(rng, dialect, width):
                            "{w}-\n   {w2}", "\n{w}", "{w}\n", "{w}\n\n{w2}",
                            "{w}\f{w2}", "{w}\v{w2}", "{w}-\r\n {w2}"))
         return Leaf(form.format(w=w(), w2=w()), "str:line-breaks")
+    if r < 0.835:
+        # long text with words that end in a dash (ODL-family encoders wrap it)
+        words = [w() + ("-" if rng.random() < 0.3 else "") for _ in range(14)]
+        return Leaf(" ".join(words), "str:long-with-dash-words")
     if r < 0.88:
         n = rng.choice((width // 2 - 1, width // 2 + 1, width - 8, width + 5,
                         2 * width))
@@ -145,7 +149,7 @@ def gen_tz(rng):
     if r < 0.6:
         return UTC, "utc"
     if r < 0.75:
-        h = rng.choice((1, 5, 9, 12))
+        h = rng.choice((1, 5, 9, 12, 13, 14))
         return dt.timezone(dt.timedelta(hours=h)), "plus-whole"
     if r < 0.87:
         h = rng.choice((1, 5, 8, 11))
